@@ -8,6 +8,8 @@ UNITS = dict(ND_UNITS)
 UNITS.update({
     'DataView_ctor': dict(DVC, file=DVH, locator=r'\bDataView\s*\((?=\s*DataArray\s+da)', ctor=True),
     'DataView_transform_coordinates': dict(DVC, file=DV, locator=r'NDSize\s+DataView::transform_coordinates\s*\('),
+    'positionInData': dict(file='src/util/dataAccess.cpp', locator=r'bool\s+positionInData\s*\(', classes=['NDSize', 'DataArray']),
+    'positionAndExtentInData': dict(file='src/util/dataAccess.cpp', locator=r'bool\s+positionAndExtentInData\s*\(', classes=['NDSize', 'DataArray']),
     'DataView_ioRead': dict(DVC, file=DV, locator=r'void\s+DataView::ioRead\s*\('),
     'DataView_ioWrite': dict(DVC, file=DV, locator=r'void\s+DataView::ioWrite\s*\('),
     'DataView_dataExtent': dict(DVC, file=DV, locator=r'NDSize\s+DataView::dataExtent\s*\((?=\s*\))'),
@@ -35,7 +37,10 @@ JOBS += [
          cbmc_flags=UNW, expect_kinds=['postcondition', 'precondition'], timeout=900)) + [
     dict(name='DataView_dataExtent', bodies=ND_BODIES + ['DataView_dataExtent'], enforce=['DataView_dataExtent'], replace=ND_REPL,
          cbmc_flags=UNW, expect_kinds=['postcondition'], timeout=900),
-]
+] + rank_cases(dict(name='positionInData', bodies=ND_BODIES + ['positionInData'], enforce=['positionInData'], replace=ND_REPL, cbmc_flags=UNW,
+                    expect_kinds=['postcondition'], timeout=600)) + \
+    rank_cases(dict(split=True, split_workers=3, name='positionAndExtentInData', bodies=ND_BODIES + ['NDSize_isub_scalar', 'positionAndExtentInData'], enforce=['positionAndExtentInData'],
+                    replace=ND_REPL + ['positionInData'], cbmc_flags=UNW, expect_kinds=['postcondition', 'precondition'], timeout=600))
 SPEC = dict(
     contracts=['nd.h', 'dv.h'], stubs=['dataarray.h'], include_order=['nd.h', 'dataarray.h', 'dv.h'], units=UNITS, jobs=JOBS,
     trusted_base=['CBMC 6.11.0 (C front end, --dfcc contract instrumentation, SAT back end)',
